@@ -26,6 +26,9 @@ func variants(mode string) []struct {
 		// heights are the keys of the active-pool queue: a chain starting at 252 ends this pool at 255 / 256
 		{Variant{Name: "creator-ops-at-height-252", Farmers: []string{"A", "B"}, StakeAmts: []int64{1},
 			RPB: sdk.NewCoins(mc.C("eth", 3)), Total: sdk.NewCoins(mc.C("eth", 10)), Creator: true, Mode: mode, InitialHeight: 252}, 5, 7},
+		// ten pools: "farm-10" has the id of the pool under test, "farm-1", as a proper prefix
+		{Variant{Name: "tenth-pool", Farmers: []string{"A", "B"}, StakeAmts: []int64{1, 2},
+			RPB: sdk.NewCoins(mc.C("eth", 2)), Total: sdk.NewCoins(mc.C("eth", 9)), Mode: mode, OtherPools: 9}, 5, 7},
 		{Variant{Name: "two-denoms-future-start", Farmers: []string{"A", "B"}, StakeAmts: []int64{2, 3},
 			RPB: sdk.NewCoins(mc.C("eth", 2), mc.C("btc", 3)), Total: sdk.NewCoins(mc.C("eth", 11), mc.C("btc", 10)),
 			StartDelta: 2, Creator: true, BigStake: true, Mode: mode}, 5, 7},
@@ -37,7 +40,12 @@ func Parts(mode string) func() []mc.Part {
 	return func() []mc.Part {
 		var ps []mc.Part
 		for _, x := range variants(mode) {
-			ps = append(ps, mc.ExplorePartC(x.v.Name, New(x.v), x.q, x.t, false,
+			mk := New(x.v)
+			if x.v.Name == "creator-ops" || x.v.Name == "exact-and-remainder" {
+				// these two also restart the chain from its own exported genesis in mid-history
+				mk = mc.WithRestart(mk, "coinswap", "farm")
+			}
+			ps = append(ps, mc.ExplorePartC(x.v.Name, mk, x.q, x.t, false,
 				"state in which at least two farmers hold stake; distinct by canonical hash of farm+bank stores, header and reference model",
 				&mc.ConfOpts{Stores: []string{"farm", "coinswap"}, SkipDenoms: map[string]bool{"stake": true}, MaxPaths: 120}))
 		}
